@@ -158,7 +158,7 @@ TraceInit == l = 1 /\ S = InitOf(Trace[1]) /\ obs = ObsOf(Trace[1])
              /\ iss = [c \in Chains |-> IdsOf(Trace[1].st.ch[c])]
 
 KnownNames(j) ==
-    /\ \A i \in DOMAIN j.cur.conns : j.cur.conns[i].cl \in {"clA", "clB"} /\ j.cur.conns[i].cpcl \in {"clA", "clB", "clX"}
+    /\ \A i \in DOMAIN j.cur.conns : j.cur.conns[i].cl \in {"clA", "clB", "localhost"} /\ j.cur.conns[i].cpcl \in {"clA", "clB", "clX"}
                                      /\ j.cur.conns[i].cpconn >= -1
     /\ \A i \in DOMAIN j.cur.chans : j.cur.chans[i].port \in RoutedPorts /\ j.cur.chans[i].cpport \in {"mock", "mock2", "nowhere"}
                                      /\ j.cur.chans[i].cpchan >= -1
